@@ -364,7 +364,7 @@ func genChain(o hreg.Opts, p chainPlan, mutants bool) (out seqOut) {
 	}
 	spec := c.Spec
 	cfgToks := flat.SpecTokens(spec)
-	perBlock := o.Pick(18, 120)
+	perBlock := o.Pick(18, 48)
 	perKind := o.Pick(2, 0)
 	rng := o.Rand()
 	stat("chain_config", p.cfg.ID)
@@ -561,7 +561,7 @@ func genChain(o hreg.Opts, p chainPlan, mutants bool) (out seqOut) {
 			// second stream: single-byte changes of the block's SSZ encoding that still decode (validity unknown by
 			// construction; S decides). This component's own mutants and the byte mutants are not part of the
 			// per-block sample cut below: always kept.
-			bytesMs := c.ByteMutations(step, o.Pick(3, 16), rng.Int63())
+			bytesMs := c.ByteMutations(step, o.Pick(3, 8), rng.Int63())
 			for i := range bytesMs {
 				own[bytesMs[i].Label] = true
 			}
